@@ -25,6 +25,7 @@ def step : List String → String
     | some _, some _ => "reject"                                                      -- not a vesting account
     | _, _ => "bad-op"
   | "vmon" :: _ => "skip"
+  | ["vsuicide"] => "skip"
   | _ => "bad-op"
 
 end Haqq.Driver.C08
